@@ -1,6 +1,7 @@
 """C12 — Output values follow the lock-previous / default / lock-range cascade (DESIGN.md section 8, C12)."""
 from __future__ import annotations
 
+import functools
 import itertools
 import math
 
@@ -21,6 +22,7 @@ RULE = ("operation sequences {defuzzify(batch of injected defuzzified values thr
         "length <= 4 over {NaN, in range, below, above, second in-range value} under EVERY split into successive calls; "
         "plus a random stream with +-inf values, failures and clear(). non-trivial: at least one NaN row is filled "
         "(lock-previous or default) or one row is clipped; distinct = distinct (setting, operation sequence)")
+RULE += (" Families `faults` / `random-faults`: the failure is raised with EVERY exception class (all built-in subclasses of Exception that take a message, two user-defined ones) through the stub, and by the library's own defuzzifiers (WeightedAverage, WeightedSum, the five integral ones) on a set activated with degree 0 .. 1 under np.errstate(all='raise') (0/0 is a FloatingPointError there); from four states, for all 16 settings, and at random positions of random histories; the class that reaches the caller is compared as well.")
 ASSUMPTIONS = ["values are compared exactly (no arithmetic happens in the cascade)",
                "a scalar value is a batch of one row (shape is canonicalised with numpy.atleast_1d)"]
 LEVEL_TEXT = ("Lean theorems about Op.commit, a statement-by-statement model of OutputVariable.defuzzify, for batches and "
@@ -46,6 +48,36 @@ class Boom(RuntimeError):
     pass
 
 
+class Custom(Exception):
+    """a failure class of the application's own (a user-defined defuzzifier or Function term may raise anything)"""
+
+
+def exception_classes():
+    """'if defuzzification raises': the property does not say *what* is raised, so every class is a case - all built-in
+    subclasses of Exception that can be made from a message (arithmetic ones such as FloatingPointError / ZeroDivisionError /
+    OverflowError, look-up, type, value, runtime, OS, warning categories used as errors, ...) and two user-defined ones"""
+    import builtins
+    out = {"Boom": Boom, "Custom": Custom}
+    for name in sorted(dir(builtins)):
+        obj = getattr(builtins, name)
+        if isinstance(obj, type) and issubclass(obj, Exception) and obj.__name__ == name:
+            try:
+                obj("injected defuzzifier failure")
+            except Exception:  # noqa: BLE001  (needs more arguments, e.g. UnicodeDecodeError)
+                continue
+            out[name] = obj
+    return out
+
+
+EXC = exception_classes()
+REAL = ["WeightedAverage", "WeightedSum", "Centroid", "Bisector", "MeanOfMaximum", "SmallestOfMaximum", "LargestOfMaximum"]
+
+
+class Inject:
+    def __init__(self, name):
+        self.cls = EXC[name]
+
+
 class Stub(fl.Defuzzifier):
     def __init__(self):
         self.queue = []
@@ -54,7 +86,34 @@ class Stub(fl.Defuzzifier):
         v = self.queue.pop(0)
         if v is None:
             raise Boom("injected defuzzifier failure")
+        if isinstance(v, Inject):
+            raise v.cls("injected defuzzifier failure")
         return v
+
+
+def raise_class(op):
+    """("raise",) is the original injected failure; ("raise", name) names the class"""
+    return op[1] if len(op) > 1 else "Boom"
+
+
+def real_set(ov, degree):
+    return [fl.Activated(ov.terms[0], float(degree), fl.Minimum())]
+
+
+@functools.lru_cache(maxsize=None)
+def real_outcome(kind, degree, lo, hi):
+    """what a defuzzifier of the library does ON ITS OWN with the fuzzy set {degree / Triangle(0, 0.5, 1)} while NumPy is
+    told to raise on floating-point errors (np.errstate(all="raise"), a legitimate setting of an application): ("raise",
+    class name) - e.g. 0/0 when nothing is activated - or ("value", v).  The defuzzifier is not what C12 is about (C09 / C10
+    are); what the output variable does with this outcome is."""
+    t = fl.Triangle("t", 0, 0.5, 1)
+    agg = fl.Aggregated("o", lo, hi, fl.Maximum(), [fl.Activated(t, float(degree), fl.Minimum())])
+    try:
+        with np.errstate(all="raise"):
+            v = getattr(fl, kind)().defuzzify(agg, lo, hi)
+        return ("value", canon(v))
+    except Exception as ex:  # noqa: BLE001
+        return ("raise", type(ex).__name__)
 
 
 def mk_value(vals, rtype):
@@ -82,7 +141,7 @@ def run_impl(setting, ops):
     lo, hi = bounds(setting)
     st = Stub()
     ov = fl.OutputVariable("o", minimum=lo, maximum=hi, lock_range=lr, lock_previous=lp, default_value=dv,
-                           defuzzifier=st, terms=[fl.Triangle("t", 0, 0.5, 1)])
+                           defuzzifier=st, aggregation=fl.Maximum(), terms=[fl.Triangle("t", 0, 0.5, 1)])
     ov.fuzzy.terms.append(fl.Activated(ov.terms[0], 0.5, fl.Minimum()))
     obs = []
     for op in ops:
@@ -93,8 +152,18 @@ def run_impl(setting, ops):
                 st.queue = [mk_value(op[1], op[2])]
                 ov.defuzzify()
             elif op[0] == "raise":
-                st.queue = [None]
+                st.queue = [None if len(op) == 1 else Inject(op[1])]
                 ov.defuzzify()
+            elif op[0] == "real":
+                # a defuzzifier of the library on a set activated with the given degree, NumPy raising on 0/0
+                ov.fuzzy.terms[:] = real_set(ov, op[2])
+                fuzzy_before = list(ov.fuzzy.terms)
+                ov.defuzzifier = getattr(fl, op[1])()
+                try:
+                    with np.errstate(all="raise"):
+                        ov.defuzzify()
+                finally:
+                    ov.defuzzifier = st
             elif op[0] == "clear":
                 ov.clear()
                 ov.fuzzy.terms.append(fl.Activated(ov.terms[0], 0.5, fl.Minimum()))
@@ -126,12 +195,14 @@ def spec(setting, ops):
             value, prev = [NAN], NAN
         elif op[0] == "raise":
             if enabled:
-                raised = "Boom"
+                raised = raise_class(op)
+        elif op[0] == "real" and enabled and real_outcome(op[1], op[2], lo, hi)[0] == "raise":
+            raised = real_outcome(op[1], op[2], lo, hi)[1]
         elif enabled:
             recent = value[-1]
             prev = recent
             rows = []
-            for raw in op[1]:
+            for raw in (op[1] if op[0] == "defuzz" else real_outcome(op[1], op[2], lo, hi)[1]):
                 v = raw
                 if v != v and lp:
                     v = recent
@@ -159,6 +230,9 @@ def to_line(setting, ops):
             sops.append(["defuzz"] + list(op[1]))
         elif op[0] == "raise":
             sops.append(["raise"])
+        elif op[0] == "real":
+            kind, out = real_outcome(op[1], op[2], lo, hi)
+            sops.append(["raise"] if kind == "raise" else ["defuzz"] + list(out))
         elif op[0] == "clear":
             sops.append(["clear"])
         else:
@@ -188,7 +262,9 @@ def settings():
 
 def key(case):
     rt = sorted({op[2] for op in case["ops"] if op[0] == "defuzz"})
-    return "rtypes=" + ",".join(rt)
+    k = "rtypes=" + ",".join(rt)
+    faults = sorted({op[1] for op in case["ops"] if (op[0] == "raise" and len(op) > 1) or op[0] == "real"})
+    return k + (";faults=" + ",".join(faults) if faults else "")
 
 
 def oracle(case):
@@ -203,7 +279,7 @@ def oracle(case):
             return False, f"step {i} {ops[i]}: value {o[0]}, documented cascade gives {e[0]}"
         if not same(o[1], e[1]):
             return False, f"step {i} {ops[i]}: previous_value {o[1]}, expected {e[1]}"
-        if ops[i][0] == "raise" and not o[3]:
+        if (ops[i][0] == "raise" or e[2] is not None) and not o[3]:
             return False, f"step {i}: fuzzy output changed although defuzzification raised"
     return True, "ok"
 
@@ -242,6 +318,40 @@ def gen_cases(ctx):
             else:
                 ops.append(("enable", rng.random() < 0.5))
         yield setting, ops, "random"
+    # "if defuzzification raises, value, previous value and fuzzy output are unchanged" - whatever is raised.  Every setting x
+    # every exception class (injected through the stub) x every defuzzifier of the library run on a set activated with degree
+    # 0 (0/0) or more while NumPy raises on floating-point errors, from four states (nothing held yet, a value, a clipped
+    # value then NaN, NaN then a value); the NaN row afterwards shows what the variable believes it held before the failure
+    hists = [[], [0.5], [2.0, NAN], [NAN, 0.25]]
+    for setting in settings():
+        for h in hists:
+            head = [("defuzz", list(h), rts[n % 4])] if h else []
+            for name in EXC:
+                n += 1
+                yield setting, head + [("raise", name), ("defuzz", [NAN], rts[n % 4])], "faults"
+            for kind in REAL:
+                for deg in (0.0, 0.25, 0.5, 1.0):
+                    n += 1
+                    yield setting, head + [("real", kind, deg), ("defuzz", [NAN, 0.5], rts[n % 4])], "faults"
+    names = sorted(EXC)
+    for _ in range(ctx.scale(1500, 15000)):
+        setting = (rng.random() < 0.5, rng.random() < 0.5, rng.choice(DEFAULTS))
+        if rng.random() < 0.25:
+            setting = setting + rng.choice([(0.0, math.inf), (-math.inf, 1.0), (-math.inf, math.inf), (0.25, 0.75), (-2.0, 0.5)])
+        ops = []
+        for _ in range(rng.randint(2, 6)):
+            r = rng.random()
+            if r < 0.45:
+                ops.append(("defuzz", [rng.choice(pool2) for _ in range(rng.randint(1, 4))], rng.choice(rts)))
+            elif r < 0.7:
+                ops.append(("raise", rng.choice(names)))
+            elif r < 0.85:
+                ops.append(("real", rng.choice(REAL), rng.choice([0.0, 0.0, 0.25, 0.5, 1.0])))
+            elif r < 0.92:
+                ops.append(("clear",))
+            else:
+                ops.append(("enable", rng.random() < 0.5))
+        yield setting, ops, "random-faults"
 
 
 def correspond(ctx):
@@ -260,11 +370,21 @@ def correspond(ctx):
         obs = run_impl(setting, ops)
         nontrivial = False
         bad = None
+        enabled = True
         for i, (o, m) in enumerate(zip(obs, model)):
             mv = [C.parse_x(x) for x in m[0]]
             mp = C.parse_x(m[1])
+            # the exception that must reach the caller: the injected one, or the one the real defuzzifier raises on its own
+            if ops[i][0] == "enable":
+                enabled = bool(ops[i][1])
+            want = None
+            if enabled and ops[i][0] == "raise":
+                want = raise_class(ops[i])
+            elif enabled and ops[i][0] == "real":
+                ro = real_outcome(ops[i][1], ops[i][2], *bounds(setting))
+                want = ro[1] if ro[0] == "raise" else None
             if len(o[0]) != len(mv) or not all(C.close(a, b, atol=0, rtol=0) for a, b in zip(o[0], mv)) \
-                    or not C.close(o[1], mp, atol=0, rtol=0) or (o[2] not in (None, "Boom")):
+                    or not C.close(o[1], mp, atol=0, rtol=0) or o[2] != want:
                 bad = (i, o, m)
                 break
             if ops[i][0] == "defuzz" and any(r != r and not (v != v) for r, v in zip(ops[i][1], o[0])):
